@@ -8,6 +8,7 @@ open Wm Wm.Poison Wm.Relay
 
     atoi <str>                                   →  <int> | err
     itoa <int>                                   →  <str>
+    utf8 <str>                                   →  1 | 0      (utf8.ValidString)
     rq <delay> <cancelled> <ok:<topic>|err> <dest> <uuid> <payload> <meta>
          →  P<n>[:<topic>|<uuid>|<payload>|<meta>|<sameObject>|<unsettledAtPublish>;…] A:<meta after> S:<ack|nack>
     fwdtopic <configured>                        →  <topic the forwarder subscribes to>
@@ -238,7 +239,7 @@ def fpubMonitor (topic : Str) (msgs : List Msg) (dest : POut) (f : List String) 
     if err then
       return "ok"
     -- reported success: everything must be on its way, named correctly
-    if dest != .ok then return "violated:success_without_acceptance"
+    if dest != .ok && !msgs.isEmpty then return "violated:success_without_acceptance"
     let mut envs : List Envelope := []
     for call in calls do
       match call.splitOn "|" with
@@ -346,6 +347,9 @@ def handleM : List String → String
   | ["itoa", i] => match parseInt i with
     | some i => hexEnc (itoa i)
     | none => "bad-op"
+  | ["utf8", s] => match hexDec s with
+    | some s => bitS (validUtf8 s)
+    | none => "bad-op"
   | "rq" :: rest => match parseRq rest with
     | some r => rqModel r
     | none => "bad-op"
@@ -356,10 +360,13 @@ def handleM : List String → String
     | some a, some e, some d => fwdModel a e d
     | _, _, _ => "bad-op"
   | ["fpub", c, t, ms, d] => match hexDec c, hexDec t, parseMsgs ms, parseDest d with
-    | some c, some t, some ms, some d => fpubModel c t ms d
+    | some c, some t, some ms, some d =>
+      -- scope of the Forwarder clauses: topic, uuid and metadata are valid UTF-8 (JSON is the wire contract)
+      if ms.all (fun m => (wrap t m).utf8) && validUtf8 t then fpubModel c t ms d else "bad-op"
     | _, _, _, _ => "bad-op"
   | ["e2e", tr, c, a, t, u, p, m, d] => match hexDec c, parseBit a, hexDec t, parseMsg u p m, parseDest d with
-    | some c, some a, some t, some m, some d => if tr == "s" || tr == "g" then e2eModel tr c a t m d else "bad-op"
+    | some c, some a, some t, some m, some d =>
+      if (tr == "s" || tr == "g") && (wrap t m).utf8 then e2eModel tr c a t m d else "bad-op"
     | _, _, _, _, _ => "bad-op"
   | ["faninctor", ss, t] => match parseHexList ss, hexDec t with
     | some ss, some t => if (FanInCfg.mk ss t).valid then "ok" else "err"
@@ -375,7 +382,7 @@ def handleM : List String → String
 
 def handleP (req obs : List String) : String :=
   match req with
-  | ["atoi", _] | ["itoa", _] | ["fwdtopic", _] | ["faninctor", _, _] =>
+  | ["atoi", _] | ["itoa", _] | ["utf8", _] | ["fwdtopic", _] | ["faninctor", _, _] =>
     -- library / construction behaviour: the statement does not speak about it; the model diff does
     if handleM req == "bad-op" then "bad-op" else "ok"
   | "rq" :: rest => match parseRq rest with
@@ -385,10 +392,11 @@ def handleP (req obs : List String) : String :=
     | some a, some e, some d, [p, s] => fwdMonitor a e d p s
     | _, _, _, _ => "bad-op"
   | ["fpub", c, t, ms, d] => match hexDec c, hexDec t, parseMsgs ms, parseDest d with
-    | some _, some t, some ms, some d => fpubMonitor t ms d obs
+    | some _, some t, some ms, some d =>
+      if ms.all (fun m => (wrap t m).utf8) && validUtf8 t then fpubMonitor t ms d obs else "bad-op"
     | _, _, _, _ => "bad-op"
   | ["e2e", _, c, a, t, u, p, m, d] => match hexDec c, parseBit a, hexDec t, parseMsg u p m, parseDest d with
-    | some _, some _, some t, some m, some d => e2eMonitor t m d obs
+    | some _, some _, some t, some m, some d => if (wrap t m).utf8 then e2eMonitor t m d obs else "bad-op"
     | _, _, _, _, _ => "bad-op"
   | ["fanin", ss, t, i, d, u, p, m] => match parseHexList ss, hexDec t, i.toNat?, parseDest d, parseMsg u p m with
     | some ss, some t, some _, some d, some m => faninMonitor ⟨ss, t⟩ m d obs
